@@ -1,7 +1,7 @@
 (* C06 — Merge preserves every key's value and actually reclaims the garbage.
    Property theorems only; proofs are in proofs/EngineMerge*.v, EngineAdopt.v, EngineOpen.v. *)
 From KV Require Import Bytes GenConsts Chunk Record Engine Script AMapLemmas EngineInv EngineRefine EngineLog EngineRecover
-  EngineCrash EngineOpen EngineAdopt EngineMerge EngineKeep EngineMergeRun.
+  EngineCrash EngineOpen EngineAdopt EngineMerge EngineKeep EngineMergeRun EngineMergeRace.
 Open Scope N_scope.
 
 (* For every configuration and every history on a fresh database - Put, Delete, Get, ListKeys, Fold,
@@ -64,6 +64,24 @@ Proof.
 Qed.
 Print Assumptions C06_adoption_reclaims.
 
+(* Writers racing with the merge scan.  Merge releases the engine lock once it has rotated the active
+   file and listed its input files; Put and Delete calls of other clients then run between any two steps
+   of the scan (db_merge_i: [pro] before the scan starts, one slot of [sched] before each scanned record;
+   each call is one critical section, the scan consults the index once per record).  For EVERY such
+   interleaving, from every reachable state: the database afterwards holds the mapping obtained by
+   applying the racing calls, in the order they ran, to the mapping before the merge - they are kept with
+   their final live outcome - and the state is again in the invariant G: the rewritten files together with
+   everything written since the merge started replay to exactly that mapping, so the adopting restart and
+   every later operation behave as C06_step says.  The merged files need not denote the mapping of any
+   single instant (see the example below). *)
+Theorem C06_merge_with_racing_writers :
+  forall d k M order pro sched d' k' e evs,
+    G d k M -> Forall (fun x => x <= d_active_id d) order -> (e = None -> order_ok d order) ->
+    db_merge_i d k order pro sched = (d', k', e, evs) ->
+    exists n, G d' k' (s_mops M (pro ++ concat (firstn n sched))).
+Proof. exact db_merge_i_G. Qed.
+Print Assumptions C06_merge_with_racing_writers.
+
 (* Non-vacuity: a concrete history with overwrites, a delete, a batch, a merge, a write after the
    merge and two restarts runs through the model, satisfies the side conditions, and the second
    restart finds the merge directory gone. *)
@@ -77,6 +95,25 @@ Example c06_history_runs :
       let '(s', rs, _) := run (d, k) c06_ops in
       map proj rs = map proj (srun [] c06_ops) /\ k_merge (snd s') = None /\
       nth 8 rs (RErr None) = RVal (inl [11]) /\ nth 11 rs (RErr None) = RVal (inl [50])
+  | _ => False
+  end.
+Proof. vm_compute. repeat split; reflexivity. Qed.
+
+(* a merge with racing writers: key 2 is deleted before the scan reaches its record, key 3 is overwritten
+   and key 6 deleted and re-put while the scan runs, key 4 is new; the rewritten files hold only key 1,
+   and the live database, the adopting restart and the restart after it all expose the final mapping *)
+Example c06_racing_merge_runs :
+  match db_open c06_cfg empty_disk with
+  | (OpenOk d k, _) =>
+    let '(s1, _, _) := run (d, k) [OpPut [1] [10]; OpPut [2] [20]; OpPut [3] [30]; OpPut [1] [11]; OpPut [6] [60]] in
+    let '(d2, k2, e, _) := db_merge_i (fst s1) (snd s1) [0] [MPut [4] [40]]
+                             [[MDel [2]]; []; [MPut [3] [31]]; [MDel [6]]; [MPut [6] [61]]] in
+    let '(s3, rs, _) := run (d2, k2) [OpGet [3]; OpRestart c06_cfg; OpGet [1]; OpGet [2]; OpGet [3]; OpGet [4]; OpGet [6];
+                                      OpList; OpRestart c06_cfg; OpList] in
+    d_active_id (fst s1) = 0 /\ e = None /\
+    match k_merge k2 with Some md => map fst (recs_of (m_files md)) = [mkRec 0 [1] [11] 0] | None => False end /\
+    map proj rs = [RVal (inl [31]); RErr None; RVal (inl [11]); RVal (inr EKeyNotFound); RVal (inl [31]);
+                   RVal (inl [40]); RVal (inl [61]); RKeys [[1]; [3]; [4]; [6]]; RErr None; RKeys [[1]; [3]; [4]; [6]]]
   | _ => False
   end.
 Proof. vm_compute. repeat split; reflexivity. Qed.
